@@ -797,3 +797,668 @@ theorem writeAll_list (value : Val) (f : Val → List (List Seg)) (xs : List Val
       .list (xs.map (fun x => writeAll value x (f x))) := by
   have := writeAll_list_aux value f xs []
   simpa using this
+
+theorem pairwise_lociEntries (g : Str → Val → List (List Seg)) : ∀ (kvs : Entries),
+    distinctKeys kvs = true → (∀ e ∈ kvs, (g e.1 e.2).Pairwise Incomp) →
+      (lociEntries g kvs).Pairwise Incomp
+  | [], _, _ => by simp [lociEntries]
+  | (k, v) :: rest, hd, h => by
+    obtain ⟨hne, hd'⟩ := distinctKeys_cons k v rest hd
+    simp only [lociEntries]
+    rw [List.pairwise_append]
+    refine ⟨?_, pairwise_lociEntries g rest hd' (fun e he => h e (List.mem_cons_of_mem _ he)), ?_⟩
+    · rw [List.pairwise_map]
+      simp only [incomp_cons]
+      exact h (k, v) (List.mem_cons_self ..)
+    · intro a ha b hb
+      obtain ⟨a', _, rfl⟩ := List.mem_map.1 ha
+      obtain ⟨e, he, b', _, rfl⟩ := mem_lociEntries g b rest hb
+      refine incomp_cons_ne _ _ _ _ ?_
+      intro heq
+      cases heq
+      exact hne e he rfl
+
+theorem pairwise_lociList (f : Val → List (List Seg)) : ∀ (xs : List Val) (n : Nat),
+    (∀ x ∈ xs, (f x).Pairwise Incomp) → (lociList f n xs).Pairwise Incomp
+  | [], _, _ => by simp [lociList]
+  | x :: xs, n, h => by
+    simp only [lociList]
+    rw [List.pairwise_append]
+    refine ⟨?_, pairwise_lociList f xs (n + 1) (fun y hy => h y (List.mem_cons_of_mem _ hy)), ?_⟩
+    · rw [List.pairwise_map]
+      simp only [incomp_cons]
+      exact h x (List.mem_cons_self ..)
+    · intro a ha b hb
+      obtain ⟨a', _, rfl⟩ := List.mem_map.1 ha
+      obtain ⟨i, y, b', _, _, rfl⟩ := mem_lociList f b xs (n + 1) hb
+      refine incomp_cons_ne _ _ _ _ ?_
+      intro heq
+      have := Seg.idx.inj heq
+      omega
+
+/-- `r` is `m` with `value` written at exactly the locations `ls` (which exist in `m` and are
+    pairwise incomparable), and the count is their number -/
+structure Realizes (value : Val) (m : Val) (r : Val × Nat) (ls : List (List Seg)) : Prop where
+  count : r.2 = ls.length
+  tree : r.1 = writeAll value m ls
+  valid : ∀ l ∈ ls, (getLoc m l).isSome = true
+  incomp : ls.Pairwise Incomp
+
+theorem Realizes.nil (value m : Val) : Realizes value m (m, 0) [] :=
+  ⟨rfl, rfl, by simp, List.Pairwise.nil⟩
+
+theorem Realizes.root (value m : Val) : Realizes value m (value, 1) [[]] :=
+  ⟨rfl, by simp [writeAll, writeLoc_nil], by simp [getLoc_nil], by simp⟩
+
+theorem Realizes.key {value v : Val} {r : Val × Nat} {ls : List (List Seg)} (k : Str)
+    (kvs : Entries) (h : lookup k kvs = some v) (hr : Realizes value v r ls) :
+    Realizes value (.map kvs) (.map (insert k r.1 kvs), r.2) (ls.map (Seg.key k :: ·)) := by
+  refine ⟨by simp [hr.count], ?_, ?_, ?_⟩
+  · simp only [writeAll_key value k ls kvs v h, hr.tree]
+  · intro l hl
+    obtain ⟨l', hl', rfl⟩ := List.mem_map.1 hl
+    simp only [getLoc, h]
+    exact hr.valid l' hl'
+  · rw [List.pairwise_map]
+    simp only [incomp_cons]
+    exact hr.incomp
+
+theorem Realizes.entries (value : Val) (F : Str → Val → Val × Nat)
+    (g : Str → Val → List (List Seg)) (kvs : Entries) (hd : distinctKeys kvs = true)
+    (h : ∀ e ∈ kvs, Realizes value e.2 (F e.1 e.2) (g e.1 e.2)) :
+    Realizes value (.map kvs)
+      (.map (kvs.map fun e => (e.1, (F e.1 e.2).1)), (kvs.map fun e => (F e.1 e.2).2).sum)
+      (lociEntries g kvs) := by
+  refine ⟨?_, ?_, ?_, ?_⟩
+  · rw [length_lociEntries]
+    simp only
+    congr 1
+    exact List.map_congr_left (fun e he => (h e he).count)
+  · rw [writeAll_entries value g kvs hd]
+    simp only
+    congr 1
+    exact List.map_congr_left (fun e he => by rw [(h e he).tree])
+  · intro l hl
+    obtain ⟨e, he, l', hl', rfl⟩ := mem_lociEntries g l kvs hl
+    simp only [getLoc, lookup_of_mem_distinct kvs e hd he]
+    exact (h e he).valid l' hl'
+  · exact pairwise_lociEntries g kvs hd (fun e he => (h e he).incomp)
+
+theorem Realizes.list (value : Val) (F : Val → Val × Nat) (f : Val → List (List Seg))
+    (xs : List Val) (h : ∀ x ∈ xs, Realizes value x (F x) (f x)) :
+    Realizes value (.list xs)
+      (.list (xs.map fun x => (F x).1), (xs.map fun x => (F x).2).sum) (lociList f 0 xs) := by
+  refine ⟨?_, ?_, ?_, ?_⟩
+  · rw [length_lociList]
+    simp only
+    congr 1
+    exact List.map_congr_left (fun x hx => (h x hx).count)
+  · rw [writeAll_list value f xs]
+    simp only
+    congr 1
+    exact List.map_congr_left (fun x hx => by rw [(h x hx).tree])
+  · intro l hl
+    obtain ⟨i, x, l', hx, hl', rfl⟩ := mem_lociList f l xs 0 hl
+    simp only [Nat.zero_add, getLoc, hx]
+    exact (h x (List.mem_of_getElem? hx)).valid l' hl'
+  · exact pairwise_lociList f xs 0 (fun x hx => (h x hx).incomp)
+
+/-- `mapCount` version of `Realizes.list` -/
+theorem Realizes.mapCount (value : Val) (F : Val → Val × Nat) (f : Val → List (List Seg))
+    (xs : List Val) (h : ∀ x ∈ xs, Realizes value x (F x) (f x)) :
+    Realizes value (.list xs) (.list (mapCount F xs).1, (mapCount F xs).2) (lociList f 0 xs) := by
+  rw [mapCount_fst, mapCount_snd]
+  exact Realizes.list value F f xs h
+
+/-- `mapEntriesCount` version of `Realizes.entries` -/
+theorem Realizes.mapEntriesCount (value : Val) (F : Val → Val × Nat)
+    (g : Val → List (List Seg)) (kvs : Entries) (hd : distinctKeys kvs = true)
+    (h : ∀ e ∈ kvs, Realizes value e.2 (F e.2) (g e.2)) :
+    Realizes value (.map kvs) (.map (mapEntriesCount F kvs).1, (mapEntriesCount F kvs).2)
+      (lociEntries (fun _ v => g v) kvs) := by
+  rw [mapEntriesCount_fst, mapEntriesCount_snd]
+  exact Realizes.entries value (fun _ v => F v) (fun _ v => g v) kvs hd h
+
+/-! ### the `*` loop of `updateValue` is an entry-wise map (on distinct keys) -/
+
+theorem distinctKeys_iff_nodup : ∀ kvs : Entries, distinctKeys kvs = true ↔ (keys kvs).Nodup
+  | [] => by simp [distinctKeys, keys]
+  | (k, v) :: rest => by
+    have ih := distinctKeys_iff_nodup rest
+    simp only [keys] at ih
+    simp only [distinctKeys, keys, List.map_cons, List.nodup_cons, Bool.and_eq_true,
+      Bool.not_eq_true', List.any_eq_false, beq_iff_eq, List.mem_map, not_exists, not_and, ih]
+
+/-- what a sub-key condition can see of a value -/
+def obs : Val → Option SubVal
+  | .str s => some (.str s)
+  | .bool b => some (.bool b)
+  | .num t => some (.num t)
+  | _ => none
+
+theorem subCond_congr (mv mv' : Entries) (k : Str) (sv : SubVal)
+    (h : ∀ k', (lookup k' mv).map obs = (lookup k' mv').map obs) :
+    subCond mv k sv = subCond mv' k sv := by
+  unfold subCond
+  simp only
+  have hk := h (if hasPrefix ['!'] k = true then List.drop 1 k else k)
+  cases h1 : lookup (if hasPrefix ['!'] k = true then List.drop 1 k else k) mv with
+  | none =>
+    cases h2 : lookup (if hasPrefix ['!'] k = true then List.drop 1 k else k) mv' with
+    | none => rfl
+    | some b => rw [h1, h2] at hk; simp at hk
+  | some a =>
+    cases h2 : lookup (if hasPrefix ['!'] k = true then List.drop 1 k else k) mv' with
+    | none => rw [h1, h2] at hk; simp at hk
+    | some b =>
+      rw [h1, h2] at hk
+      simp only [Option.map_some, Option.some.injEq] at hk
+      simp only
+      by_cases hs : sv = SubVal.str ['*']
+      · simp [hs]
+      · simp only [hs, decide_false, Bool.false_eq_true, if_false]
+        cases a <;> cases b <;> (try simp [obs] at hk) <;> cases sv <;> simp_all
+
+theorem hasSubKeys_map_congr (mv mv' : Entries) (subs : SubKeys)
+    (h : ∀ k', (lookup k' mv).map obs = (lookup k' mv').map obs) :
+    hasSubKeys (.map mv) subs = hasSubKeys (.map mv') subs := by
+  unfold hasSubKeys
+  by_cases he : subs.isEmpty = true
+  · simp [he]
+  · simp only [he]
+    have : (fun x : Str × SubVal => subCond mv x.fst x.snd)
+        = fun x => subCond mv' x.fst x.snd := by
+      funext e
+      exact subCond_congr mv mv' e.1 e.2 h
+    simp only [this]
+
+theorem updEnd_hs_irrel (key : Str) (value : Val) (subs : SubKeys) (hs hs' : Bool) (k0 : Str)
+    (e : Val) (h : key ≠ k0) : updEnd key value subs hs k0 e = updEnd key value subs hs' k0 e := by
+  simp only [updEnd, h, if_false]
+
+theorem obs_updEnd (key : Str) (value : Val) (subs : SubKeys) (hs : Bool) (k0 : Str)
+    (e : Val) (h : key ≠ k0) : obs (updEnd key value subs hs k0 e).1 = obs e := by
+  simp only [updEnd, h, if_false]
+  cases e with
+  | map ekvs =>
+    by_cases hc : (hasSubKeys (Val.map ekvs) subs && (lookup key ekvs).isSome) = true <;>
+      simp [hc, obs]
+  | _ => simp [obs]
+
+/-- entry transformer of the `*` loop -/
+def updEntry (key : Str) (value : Val) (subs : SubKeys) (hs : Bool) (e : Str × Val) : Str × Val :=
+  (e.1, (updEnd key value subs hs e.1 e.2).1)
+
+theorem lookup_updEntry_obs (key : Str) (value : Val) (subs : SubKeys) (hs : Bool)
+    (tail : Entries) (k' : Str) : ∀ pre : Entries, (∀ e ∈ pre, key ≠ e.1) →
+      (lookup k' (pre.map (updEntry key value subs hs) ++ tail)).map obs =
+        (lookup k' (pre ++ tail)).map obs
+  | [], _ => rfl
+  | (k₀, v₀) :: pre, h => by
+    have h0 : key ≠ k₀ := h (k₀, v₀) (List.mem_cons_self ..)
+    by_cases hk : k' = k₀
+    · simp [lookup, updEntry, hk, obs_updEnd key value subs hs k₀ v₀ h0]
+    · simp only [List.map_cons, List.cons_append, lookup, updEntry, hk, if_false]
+      exact lookup_updEntry_obs key value subs hs tail k' pre
+        (fun e he => h e (List.mem_cons_of_mem _ he))
+
+theorem updFold_eq (key : Str) (value : Val) (subs : SubKeys) (hs : Bool) :
+    ∀ (rest pre : Entries) (c : Nat), (keys (pre ++ rest)).Nodup →
+      hs = hasSubKeys (.map (pre ++ rest)) subs →
+      (keys rest).foldl (updStep key value subs)
+          (pre.map (updEntry key value subs hs) ++ rest, c) =
+        (pre.map (updEntry key value subs hs) ++ rest.map (updEntry key value subs hs),
+          c + (rest.map (fun e => (updEnd key value subs hs e.1 e.2).2)).sum)
+  | [], pre, c, _, _ => by simp [keys]
+  | (k, e) :: rest, pre, c, hnd, hhs => by
+    have hpre : ∀ e' ∈ pre, e'.1 ≠ k := by
+      intro e' he' heq
+      simp only [keys, List.map_append, List.map_cons] at hnd
+      have := (List.nodup_append.1 hnd).2.2 e'.1 (List.mem_map.2 ⟨e', he', rfl⟩) k
+        (List.mem_cons_self ..)
+      exact this heq
+    have hlk0 : lookup k (pre.map (updEntry key value subs hs)) = none := by
+      apply lookup_none_of_forall_ne
+      intro e' he'
+      obtain ⟨e'', he'', rfl⟩ := List.mem_map.1 he'
+      exact hpre e'' he''
+    have hlk : lookup k (pre.map (updEntry key value subs hs) ++ (k, e) :: rest) = some e := by
+      rw [lookup_append, hlk0]; simp [lookup]
+    have hX : updEnd key value subs
+        (hasSubKeys (.map (pre.map (updEntry key value subs hs) ++ (k, e) :: rest)) subs) k e
+        = updEnd key value subs hs k e := by
+      by_cases hk : key = k
+      · refine congrArg (fun b => updEnd key value subs b k e) ?_
+        refine Eq.trans (hasSubKeys_map_congr _ _ subs ?_) hhs.symm
+        intro k'
+        exact lookup_updEntry_obs key value subs hs _ k' pre
+          (fun e' he' => by rw [hk]; exact fun h => hpre e' he' h.symm)
+      · exact updEnd_hs_irrel key value subs _ _ k e hk
+    have hstep : updStep key value subs
+        (pre.map (updEntry key value subs hs) ++ (k, e) :: rest, c) k =
+        ((pre ++ [(k, e)]).map (updEntry key value subs hs) ++ rest,
+          c + (updEnd key value subs hs k e).2) := by
+      simp only [updStep, updAt_eq, hlk, hX]
+      rw [insert_append_none k _ _ _ hlk0]
+      simp [insert, updEntry]
+    simp only [keys, List.map_cons, List.foldl_cons]
+    rw [hstep]
+    have ih := updFold_eq key value subs hs rest (pre ++ [(k, e)])
+      (c + (updEnd key value subs hs k e).2) (by simpa using hnd) (by simpa using hhs)
+    simp only [keys] at ih
+    rw [ih]
+    simp [updEntry, Nat.add_assoc]
+
+theorem updMap_star_eq (key : Str) (value : Val) (subs : SubKeys) (kvs : Entries)
+    (hd : distinctKeys kvs = true) :
+    updMap key value subs kvs ['*'] =
+      (kvs.map (fun e => (e.1, (updEnd key value subs (hasSubKeys (.map kvs) subs) e.1 e.2).1)),
+       (kvs.map (fun e => (updEnd key value subs (hasSubKeys (.map kvs) subs) e.1 e.2).2)).sum) := by
+  rw [updMap_star]
+  have := updFold_eq key value subs (hasSubKeys (.map kvs) subs) kvs [] 0
+    (by simpa using (distinctKeys_iff_nodup kvs).1 hd) (by simp)
+  unfold updEntry at this
+  simpa using this
+
+/-! ### well-formedness helpers -/
+
+theorem wfEntries_mem : ∀ (kvs : Entries) (e : Str × Val), Val.wfEntries kvs = true → e ∈ kvs →
+    e.2.wf = true
+  | [], _, _, h => by simp at h
+  | (k, v) :: rest, e, hw, h => by
+    simp only [Val.wfEntries, Bool.and_eq_true] at hw
+    rcases List.mem_cons.1 h with rfl | h'
+    · exact hw.1
+    · exact wfEntries_mem rest e hw.2 h'
+
+theorem wfEntries_lookup (k : Str) (v : Val) : ∀ kvs : Entries, Val.wfEntries kvs = true →
+    lookup k kvs = some v → v.wf = true
+  | [], _, h => by simp [lookup] at h
+  | (k₀, v₀) :: rest, hw, h => by
+    simp only [Val.wfEntries, Bool.and_eq_true] at hw
+    by_cases hk : k = k₀
+    · simp only [lookup, hk, if_true, Option.some.injEq] at h
+      rw [← h]; exact hw.1
+    · simp only [lookup, hk, if_false] at h
+      exact wfEntries_lookup k v rest hw.2 h
+
+theorem wfList_mem : ∀ (xs : List Val) (x : Val), Val.wfList xs = true → x ∈ xs → x.wf = true
+  | [], _, _, h => by simp at h
+  | y :: ys, x, hw, h => by
+    simp only [Val.wfList, Bool.and_eq_true] at hw
+    rcases List.mem_cons.1 h with rfl | h'
+    · exact hw.1
+    · exact wfList_mem ys x hw.2 h'
+
+theorem wf_map (kvs : Entries) (h : (Val.map kvs).wf = true) :
+    Val.wfEntries kvs = true ∧ distinctKeys kvs = true := by
+  simpa [Val.wf] using h
+
+theorem wf_list (xs : List Val) (h : (Val.list xs).wf = true) : Val.wfList xs = true := by
+  simpa [Val.wf] using h
+
+/-! ### the written locations of the model, independent of the new value -/
+
+/-- `replaceMembers`: the members satisfying the sub-keys -/
+def replaceLoci (subs : SubKeys) (xs : List Val) : List (List Seg) :=
+  lociList (fun v => if hasSubKeys v subs then [[]] else []) 0 xs
+
+/-- `setInMembers`: entry `key` of the map members holding it and satisfying the sub-keys -/
+def setInLoci (key : Str) (subs : SubKeys) (xs : List Val) : List (List Seg) :=
+  lociList (fun v => match v with
+    | .map vv => if (lookup key vv).isSome && hasSubKeys (.map vv) subs
+        then [[Seg.key key]] else []
+    | _ => []) 0 xs
+
+/-- loci of `updEnd`, relative to the entry's value -/
+def updEndLoci (key : Str) (subs : SubKeys) (hs : Bool) (k0 : Str) (endVal : Val) :
+    List (List Seg) :=
+  if key = k0 then
+    match endVal with
+    | .list xs => if hs then [[]] else replaceLoci subs xs
+    | _ => if hs then [[]] else []
+  else
+    match endVal with
+    | .map ekvs =>
+        if hasSubKeys (.map ekvs) subs && (lookup key ekvs).isSome then [[Seg.key key]] else []
+    | .list xs => setInLoci key subs xs
+    | _ => []
+
+/-- loci of `updMap` -/
+def updMapLoci (key : Str) (subs : SubKeys) (kvs : Entries) (keys0 : Str) : List (List Seg) :=
+  if keys0 = ['*'] then
+    lociEntries (fun k e => updEndLoci key subs (hasSubKeys (.map kvs) subs) k e) kvs
+  else match lookup keys0 kvs with
+    | none => []
+    | some e => (updEndLoci key subs (hasSubKeys (.map kvs) subs) keys0 e).map (Seg.key keys0 :: ·)
+
+/-- loci of `updValue` -/
+def updValueLoci (key : Str) (subs : SubKeys) (m : Val) (keys0 : Str) : List (List Seg) :=
+  match m with
+  | .map kvs => updMapLoci key subs kvs keys0
+  | .list xs => lociList (fun v => match v with
+      | .map vv => updMapLoci key subs vv keys0
+      | _ => []) 0 xs
+  | _ => []
+
+/-- ghost version of `updPath`: the locations it writes (in the order it writes them) -/
+def updPathLoci (key : Str) (subs : SubKeys) : Val → List Str → List (List Seg)
+  | _, [] => []
+  | m, [k0] => updValueLoci key subs m k0
+  | m, k :: k' :: ks =>
+    if k = ['*'] then
+      match m with
+      | .map kvs => lociEntries (fun _ v => updPathLoci key subs v (k' :: ks)) kvs
+      | .list xs => lociList (fun x => match x with
+          | .map kvs => lociEntries (fun _ v => updPathLoci key subs v (k' :: ks)) kvs
+          | v => updPathLoci key subs v (k' :: ks)) 0 xs
+      | _ => []
+    else
+      match m with
+      | .map kvs => match lookup k kvs with
+          | some v => (updPathLoci key subs v (k' :: ks)).map (Seg.key k :: ·)
+          | none => []
+      | .list xs => lociList (fun x => match x with
+          | .map kvs => match lookup k kvs with
+              | some v => (updPathLoci key subs v (k' :: ks)).map (Seg.key k :: ·)
+              | none => []
+          | _ => []) 0 xs
+      | _ => []
+termination_by _ ks => ks.length
+decreasing_by all_goals simp_wf <;> omega
+
+/-! ### the model realises its loci -/
+
+theorem realizes_replaceMembers (value : Val) (subs : SubKeys) (xs : List Val) :
+    Realizes value (.list xs)
+      (.list (replaceMembers value subs xs).1, (replaceMembers value subs xs).2)
+      (replaceLoci subs xs) := by
+  unfold replaceMembers replaceLoci
+  refine Realizes.mapCount value _ _ xs ?_
+  intro x _
+  by_cases hs : hasSubKeys x subs = true
+  · simp only [hs, if_true]; exact Realizes.root value x
+  · simp only [hs]; exact Realizes.nil value x
+
+theorem realizes_setKey (value : Val) (key : Str) (vv : Entries)
+    (h : (lookup key vv).isSome = true) :
+    Realizes value (.map vv) (.map (insert key value vv), 1) [[Seg.key key]] := by
+  obtain ⟨w, hw⟩ := Option.isSome_iff_exists.1 h
+  exact Realizes.key key vv hw (Realizes.root value w)
+
+theorem realizes_setInMembers (key : Str) (value : Val) (subs : SubKeys) (xs : List Val) :
+    Realizes value (.list xs)
+      (.list (setInMembers key value subs xs).1, (setInMembers key value subs xs).2)
+      (setInLoci key subs xs) := by
+  unfold setInMembers setInLoci
+  refine Realizes.mapCount value _ _ xs ?_
+  intro x _
+  cases x with
+  | map vv =>
+    by_cases hc : ((lookup key vv).isSome && hasSubKeys (Val.map vv) subs) = true
+    · simp only [hc, if_true]
+      simp only [Bool.and_eq_true] at hc
+      exact realizes_setKey value key vv hc.1
+    · simp only [hc]; exact Realizes.nil value _
+  | _ => exact Realizes.nil value _
+
+theorem realizes_updEnd (key : Str) (value : Val) (subs : SubKeys) (hs : Bool) (k0 : Str)
+    (e : Val) : Realizes value e (updEnd key value subs hs k0 e) (updEndLoci key subs hs k0 e) := by
+  unfold updEnd updEndLoci
+  by_cases hk : key = k0
+  · simp only [hk, if_true]
+    cases hs
+    · cases e with
+      | list xs =>
+        simp only [Bool.false_eq_true, if_false]
+        exact realizes_replaceMembers value subs xs
+      | _ => simp only [Bool.false_eq_true, if_false]; exact Realizes.nil value _
+    · cases e <;> simp only [if_true] <;> exact Realizes.root value _
+  · simp only [hk, if_false]
+    cases e with
+    | map ekvs =>
+      by_cases hc : (hasSubKeys (Val.map ekvs) subs && (lookup key ekvs).isSome) = true
+      · simp only [hc, if_true]
+        simp only [Bool.and_eq_true] at hc
+        exact realizes_setKey value key ekvs hc.2
+      · simp only [hc]; exact Realizes.nil value _
+    | list xs => exact realizes_setInMembers key value subs xs
+    | _ => exact Realizes.nil value _
+
+theorem realizes_updMap (key : Str) (value : Val) (subs : SubKeys) (kvs : Entries) (k0 : Str)
+    (hd : distinctKeys kvs = true) :
+    Realizes value (.map kvs)
+      (.map (updMap key value subs kvs k0).1, (updMap key value subs kvs k0).2)
+      (updMapLoci key subs kvs k0) := by
+  unfold updMapLoci
+  by_cases hk : k0 = ['*']
+  · subst hk
+    simp only [if_true, updMap_star_eq key value subs kvs hd]
+    exact Realizes.entries value
+      (fun k e => updEnd key value subs (hasSubKeys (.map kvs) subs) k e) _ kvs hd
+      (fun e _ => realizes_updEnd key value subs _ e.1 e.2)
+  · simp only [hk, if_false, updMap_ne_star _ _ _ _ _ hk, updAt_eq]
+    cases hl : lookup k0 kvs with
+    | none => exact Realizes.nil value _
+    | some e => exact Realizes.key k0 kvs hl (realizes_updEnd key value subs _ k0 e)
+
+theorem realizes_updValue (key : Str) (value : Val) (subs : SubKeys) (m : Val) (k0 : Str)
+    (hw : m.wf = true) :
+    Realizes value m (updValue key value subs m k0) (updValueLoci key subs m k0) := by
+  unfold updValue updValueLoci
+  cases m with
+  | map kvs => exact realizes_updMap key value subs kvs k0 (wf_map kvs hw).2
+  | list xs =>
+    refine Realizes.mapCount value _ _ xs ?_
+    intro x hx
+    cases x with
+    | map vv =>
+      exact realizes_updMap key value subs vv k0 (wf_map vv (wfList_mem xs _ (wf_list xs hw) hx)).2
+    | _ => exact Realizes.nil value _
+  | _ => exact Realizes.nil value _
+
+theorem realizes_updPath (key : Str) (value : Val) (subs : SubKeys) : ∀ (ks : List Str) (m : Val),
+    m.wf = true →
+      Realizes value m (updPath key value subs m ks) (updPathLoci key subs m ks)
+  | [], m, _ => by
+    simp only [updPath, updPathLoci]
+    exact Realizes.nil value m
+  | [k0], m, hw => by
+    simp only [updPath, updPathLoci]
+    exact realizes_updValue key value subs m k0 hw
+  | k :: k' :: ks, m, hw => by
+    have ih := realizes_updPath key value subs (k' :: ks)
+    by_cases hk : k = ['*']
+    · subst hk
+      cases m with
+      | map kvs =>
+        obtain ⟨hwe, hd⟩ := wf_map kvs hw
+        simp only [updPath, updPathLoci, if_true]
+        exact Realizes.mapEntriesCount value _ _ kvs hd
+          (fun e he => ih e.2 (wfEntries_mem kvs e hwe he))
+      | list xs =>
+        have hwl := wf_list xs hw
+        simp only [updPath, updPathLoci, if_true]
+        refine Realizes.mapCount value _ _ xs ?_
+        intro x hx
+        have hwx := wfList_mem xs x hwl hx
+        cases x with
+        | map kvs =>
+          obtain ⟨hwe, hd⟩ := wf_map kvs hwx
+          exact Realizes.mapEntriesCount value _ _ kvs hd
+            (fun e he => ih e.2 (wfEntries_mem kvs e hwe he))
+        | _ => exact ih _ hwx
+      | _ =>
+        simp only [updPath, updPathLoci, if_true]
+        exact Realizes.nil value _
+    · cases m with
+      | map kvs =>
+        obtain ⟨hwe, hd⟩ := wf_map kvs hw
+        simp only [updPath, updPathLoci, hk, if_false]
+        cases hl : lookup k kvs with
+        | none => exact Realizes.nil value _
+        | some v => exact Realizes.key k kvs hl (ih v (wfEntries_lookup k v kvs hwe hl))
+      | list xs =>
+        have hwl := wf_list xs hw
+        simp only [updPath, updPathLoci, hk, if_false]
+        refine Realizes.mapCount value _ _ xs ?_
+        intro x hx
+        have hwx := wfList_mem xs x hwl hx
+        cases x with
+        | map kvs =>
+          obtain ⟨hwe, hd⟩ := wf_map kvs hwx
+          simp only
+          cases hl : lookup k kvs with
+          | none => exact Realizes.nil value _
+          | some v => exact Realizes.key k kvs hl (ih v (wfEntries_lookup k v kvs hwe hl))
+        | _ => exact Realizes.nil value _
+      | _ =>
+        simp only [updPath, updPathLoci, hk, if_false]
+        exact Realizes.nil value _
+
+/-! ### every written locus is an entry named `key`, or a member of the list stored there -/
+
+/-- the location is `… .key` or `… .key[i]` -/
+def underKey (key : Str) (l : List Seg) : Prop :=
+  (∃ pre, l = pre ++ [Seg.key key]) ∨ (∃ pre i, l = pre ++ [Seg.key key, Seg.idx i])
+
+theorem underKey_cons (key : Str) (s : Seg) (l : List Seg) (h : underKey key l) :
+    underKey key (s :: l) := by
+  rcases h with ⟨pre, rfl⟩ | ⟨pre, i, rfl⟩
+  · exact Or.inl ⟨s :: pre, rfl⟩
+  · exact Or.inr ⟨s :: pre, i, rfl⟩
+
+theorem underKey_lociList (key : Str) (f : Val → List (List Seg)) (xs : List Val) (n : Nat)
+    (h : ∀ x ∈ xs, ∀ l ∈ f x, underKey key l) : ∀ l ∈ lociList f n xs, underKey key l := by
+  intro l hl
+  obtain ⟨i, x, l', hx, hl', rfl⟩ := mem_lociList f l xs n hl
+  exact underKey_cons key _ _ (h x (List.mem_of_getElem? hx) l' hl')
+
+theorem underKey_lociEntries (key : Str) (g : Str → Val → List (List Seg)) (kvs : Entries)
+    (h : ∀ e ∈ kvs, ∀ l ∈ g e.1 e.2, underKey key l) :
+    ∀ l ∈ lociEntries g kvs, underKey key l := by
+  intro l hl
+  obtain ⟨e, he, l', hl', rfl⟩ := mem_lociEntries g l kvs hl
+  exact underKey_cons key _ _ (h e he l' hl')
+
+theorem underKey_updEndLoci (key : Str) (subs : SubKeys) (hs : Bool) (k0 : Str) (e : Val) :
+    ∀ l ∈ updEndLoci key subs hs k0 e, underKey key (Seg.key k0 :: l) := by
+  intro l hl
+  unfold updEndLoci at hl
+  by_cases hk : key = k0
+  · subst hk
+    simp only [if_true] at hl
+    have hroot : ∀ l : List Seg, l ∈ [([] : List Seg)] → underKey key (Seg.key key :: l) := by
+      intro l hl
+      simp only [List.mem_singleton] at hl
+      subst hl
+      exact Or.inl ⟨[], rfl⟩
+    cases hs
+    · cases e with
+      | list xs =>
+        simp only [Bool.false_eq_true, if_false, replaceLoci] at hl
+        obtain ⟨i, x, l', _, hl', rfl⟩ := mem_lociList _ l xs 0 hl
+        by_cases hc : hasSubKeys x subs = true
+        · simp only [hc, if_true, List.mem_singleton] at hl'
+          subst hl'
+          exact Or.inr ⟨[], _, rfl⟩
+        · simp [hc] at hl'
+      | _ => simp at hl
+    · cases e <;> exact hroot l (by simpa using hl)
+  · simp only [hk, if_false] at hl
+    apply underKey_cons
+    cases e with
+    | map ekvs =>
+      by_cases hc : (hasSubKeys (Val.map ekvs) subs && (lookup key ekvs).isSome) = true
+      · simp only [hc, if_true, List.mem_singleton] at hl
+        subst hl
+        exact Or.inl ⟨[], rfl⟩
+      · simp [hc] at hl
+    | list xs =>
+      simp only [setInLoci] at hl
+      refine underKey_lociList key _ xs 0 ?_ l hl
+      intro x _ l' hl'
+      cases x with
+      | map vv =>
+        by_cases hc : ((lookup key vv).isSome && hasSubKeys (Val.map vv) subs) = true
+        · simp only [hc, if_true, List.mem_singleton] at hl'
+          subst hl'
+          exact Or.inl ⟨[], rfl⟩
+        · simp [hc] at hl'
+      | _ => simp at hl'
+    | _ => simp at hl
+
+theorem underKey_updMapLoci (key : Str) (subs : SubKeys) (kvs : Entries) (k0 : Str) :
+    ∀ l ∈ updMapLoci key subs kvs k0, underKey key l := by
+  intro l hl
+  unfold updMapLoci at hl
+  by_cases hk : k0 = ['*']
+  · simp only [hk, if_true] at hl
+    obtain ⟨e, _, l', hl', rfl⟩ := mem_lociEntries _ l kvs hl
+    exact underKey_updEndLoci key subs _ e.1 e.2 l' hl'
+  · simp only [hk, if_false] at hl
+    cases hlk : lookup k0 kvs with
+    | none => simp [hlk] at hl
+    | some e =>
+      simp only [hlk, List.mem_map] at hl
+      obtain ⟨l', hl', rfl⟩ := hl
+      exact underKey_updEndLoci key subs _ k0 e l' hl'
+
+theorem underKey_updValueLoci (key : Str) (subs : SubKeys) (m : Val) (k0 : Str) :
+    ∀ l ∈ updValueLoci key subs m k0, underKey key l := by
+  unfold updValueLoci
+  cases m with
+  | map kvs => exact underKey_updMapLoci key subs kvs k0
+  | list xs =>
+    refine underKey_lociList key _ xs 0 ?_
+    intro x _
+    cases x with
+    | map vv => exact underKey_updMapLoci key subs vv k0
+    | _ => simp
+  | _ => simp
+
+theorem underKey_updPathLoci (key : Str) (subs : SubKeys) : ∀ (ks : List Str) (m : Val),
+    ∀ l ∈ updPathLoci key subs m ks, underKey key l
+  | [], m => by simp [updPathLoci]
+  | [k0], m => by
+    simp only [updPathLoci]
+    exact underKey_updValueLoci key subs m k0
+  | k :: k' :: ks, m => by
+    have ih := underKey_updPathLoci key subs (k' :: ks)
+    have hmap : ∀ (k : Str) (v : Val), ∀ l ∈ (updPathLoci key subs v (k' :: ks)).map (Seg.key k :: ·),
+        underKey key l := by
+      intro k v l hl
+      obtain ⟨l', hl', rfl⟩ := List.mem_map.1 hl
+      exact underKey_cons key _ _ (ih v l' hl')
+    by_cases hk : k = ['*']
+    · subst hk
+      cases m with
+      | map kvs =>
+        simp only [updPathLoci, if_true]
+        exact underKey_lociEntries key _ kvs (fun e _ => ih e.2)
+      | list xs =>
+        simp only [updPathLoci, if_true]
+        refine underKey_lociList key _ xs 0 ?_
+        intro x _
+        cases x with
+        | map kvs => exact underKey_lociEntries key _ kvs (fun e _ => ih e.2)
+        | _ => exact ih _
+      | _ => simp [updPathLoci]
+    · cases m with
+      | map kvs =>
+        simp only [updPathLoci, hk, if_false]
+        cases hl : lookup k kvs with
+        | none => simp
+        | some v => exact hmap k v
+      | list xs =>
+        simp only [updPathLoci, hk, if_false]
+        refine underKey_lociList key _ xs 0 ?_
+        intro x _
+        cases x with
+        | map kvs =>
+          simp only
+          cases hl : lookup k kvs with
+          | none => simp
+          | some v => exact hmap k v
+        | _ => simp
+      | _ => simp [updPathLoci, hk]
